@@ -82,7 +82,7 @@ def run(model, col, tier):
     # ---------------- R15.2 ------------------------------------------------------
     vinit = vmc.own_method("__init__")
     gs = [n for n in ast.walk(vinit) if isinstance(n, ast.Assign) and isinstance(n.targets[0], ast.Attribute) and "lobal" in n.targets[0].attr]
-    good = len(gs) == 1 and isinstance(gs[0].value, (ast.DictComp, ast.Dict)) or (len(gs) == 1 and isinstance(gs[0].value, ast.Call) and dotted(gs[0].value.func) == "dict")
+    good = len(gs) == 1 and (isinstance(gs[0].value, (ast.DictComp, ast.Dict)) or (isinstance(gs[0].value, ast.Call) and dotted(gs[0].value.func) in ("dict", "dict.fromkeys", "collections.OrderedDict", "OrderedDict")))
     col.check(good, "R15.2", f"{VM}::VirtualMachine.__init__ globals map", f"the globals map is created freshly for this VM: {unparse(gs[0].value)[:60] if gs else ''}",
               f"the globals map is bound to `{unparse(gs[0].value) if gs else None}`, not to a container created inside __init__: two VMs can share one map", VM, vinit)
     gfield = gs[0].targets[0].attr if gs else "__globalScope"
@@ -160,7 +160,12 @@ def run(model, col, tier):
                           f"`{unparse(n)[:60]}` replicates one object: every element is the same array/struct, which {inplace} mutate in place (a store to one element changes all)", VM, n)
     cs = ec.own_method("__CreateStructureInstance")
     t = unparse(cs)
-    col.check("r = {}" in t and "r[name] = value" in t and "self.__CreateInstance(fieldType)" in t, "R15.4", f"{VM}::__CreateStructureInstance", "a fresh dict with one fresh instance per field", "a structure instance is not a fresh dict of fresh field instances", VM, cs)
+    from ..sem import iterations as _iterations
+
+    per_field = any("Fields" in unparse(it) and any(isinstance(c, ast.Call) and "__CreateInstance" in unparse(c.func) for b in body for c in ast.walk(b)) for it, tgt, body, kind in _iterations(cs))
+    rets_ = [r.value for r in ast.walk(cs) if isinstance(r, ast.Return) and r.value is not None]
+    fresh_ret = bool(rets_) and all(isinstance(r, (ast.Dict, ast.DictComp)) or (isinstance(r, ast.Name) and any(isinstance(v, (ast.Dict, ast.DictComp)) or (isinstance(v, ast.Call) and dotted(v.func) in ("dict", "OrderedDict", "collections.OrderedDict")) for v in find_assign(cs, r.id))) for r in rets_)
+    col.check(per_field and fresh_ret, "R15.4", f"{VM}::__CreateStructureInstance", "a fresh dict with one fresh instance per field", "a structure instance is not a fresh dict of fresh field instances", VM, cs)
     ci = ec.own_method("__CreateInstance")
     arr = [n for n in ast.walk(ci) if isinstance(n, ast.ListComp) and any(isinstance(c, ast.Call) and "__CreateInstance" in unparse(c.func) for c in ast.walk(n.elt))]
     col.check(bool(arr), "R15.4", f"{VM}::__CreateInstance array elements", "one instance is created per array element (comprehension)", "array elements are not created one by one", VM, ci)
@@ -178,4 +183,11 @@ def run(model, col, tier):
                       f"`{unparse(c)[:60]}`: the constant's value is not evidently an immutable scalar; constants are copied by reference into every frame", LOWER, c)
     col.floor("R15.5", "CreateConstant call sites in lowering", ncc, 4)
     pre = " ".join(unparse(ast.Module(body=vm.prologue, type_ignores=[])).split())
-    col.check("localScope[constant.Reference] = constant.Value" in pre, "R15.5", f"{VM}::__Execute constants", "constants are copied into the fresh value map by value reference", None, VM, vm.execute)
+    holder_ = ast.Module(body=vm.prologue, type_ignores=[])
+    consts_ok = False
+    for it, tgt, body, kind in _iterations(holder_):
+        if unparse(it).endswith(".Constants"):
+            tv = unparse(tgt)
+            texts = [" ".join(unparse(b).split()) for b in body]
+            consts_ok = any(f"{tv}.Reference" in t_ for t_ in texts) and any(f"{tv}.Value" in t_ for t_ in texts)
+    col.check(consts_ok, "R15.5", f"{VM}::__Execute constants", "constants are copied into the fresh value map by value reference", None, VM, vm.execute)
